@@ -420,6 +420,8 @@ def _modR(e, R, M):
         ops = list(e[2])
         if any(o == ('un', '~', M) for o in ops):
             return {}                                   # a multiple of R
+        if any(o in (('lin', 0, ((R, -1),)), ('un', '-', R)) for o in ops):
+            return {}                                   # x & -R: in two's complement -R is ~(R - 1), the mask of the bits from R upwards
         # (size - 1) ^ (R - 1) with size a power of two >= R is the mask of the bits above the register size
         if any(o[0] == 'nary' and o[1] == '^' and len(o[2]) == 2 and M in o[2] and any(x in _COVER for x in o[2]) for o in ops):
             return {}
